@@ -310,6 +310,27 @@ func addSource(c *h.Ctx, src, origin string) {
 	}
 }
 
+// genTruncatedEscapes: escape sequences cut short at every position — alone, after a complete (surrogate) escape and
+// followed by the closing delimiter — in string literals, object keys, identifiers and regular expression literals.
+// Whatever the scanner and the literal decoders do with them, they must not panic (totality), and if the source is
+// accepted its tree must be well-formed.
+func genTruncatedEscapes(c *h.Ctx) {
+	fulls := []string{"\\uD83D\\uDE00", "\\uDC00\\u1234", "\\uD83D\\u0041", "\\u0041\\uD83D", "\\x41\\x42", "\\uD83D\\x41", "\\101\\uD83D", "\\u0061\\u0062"}
+	frames := []struct{ pre, post string }{
+		{"\"", "\""}, {"'", "'"}, {"x = \"", "\";"}, {"({\"", "\": 1})"}, {"({'", "': 1, b: 2})"}, {"({get \"", "\"(){}})"},
+		{"var a", " = 1"}, {"var ", " = 1"}, {"o.", ""}, {"({", ": 1})"}, {"function ", "(){}"}, {"L", ": ;"},
+		{"/", "/"}, {"x = /a", "/g"}, {"x = /[", "]/"}, {"/", "/.test('a')"},
+		{"\"", ""}, {"'abc", ""}, {"/", ""}, {"x = \"", "\n\""},
+	}
+	for _, full := range fulls {
+		for cut := 0; cut <= len(full); cut++ {
+			for _, fr := range frames {
+				addSource(c, fr.pre+full[:cut]+fr.post, "src:truncated-escape")
+			}
+		}
+	}
+}
+
 func genC04(c *h.Ctx) {
 	for _, s := range c04Corpus {
 		addSource(c, s, "src:corpus")
@@ -332,6 +353,7 @@ func genC04(c *h.Ctx) {
 	for i := 0; i < c.N(4000, 250000); i++ {
 		addSource(c, randomBytes(c.Rng), "src:random-bytes")
 	}
+	genTruncatedEscapes(c)
 	genEarly(c)
 	genEarly2(c)
 	genResv(c)
